@@ -76,7 +76,7 @@ CHECKS["C08"] = dict(
 CHECKS["C11"] = dict(
   engine="seqx", category="model_checking", design="5/C11",
   technique="explicit-state BFS over raw-KV call sequences on the real rawkv.Client over mocktikv, times deviation-bounded enumeration of topology changes injected before each RPC, against a sorted-map model",
-  text="All sequences to the depth bound over an alphabet of 230 calls (all bound pairs, limits, duplicates, key-only, CAS, checksum) on every layout of two split keys; before any RPC of a call one (quick) or two (thorough) topology changes (split, merge, leader transfer) may be injected; every call result and a full observation set are compared with the model.",
+  text="All sequences to the depth bound over an alphabet of 235 calls (all bound pairs, limits, duplicates, 600-1200-key batches cut into unequal sub-batches, key-only, CAS, checksum) on every layout of two split keys; before any RPC of a call one (quick) or two (thorough) topology changes (split, merge, leader transfer) may be injected; every call result and a full observation set are compared with the model.",
   note="Trusted: mocktikv raw handlers (TTL / key-only unsupported there, accepted as such), epochs patched to TiKV rules through white-box helpers, sorted-map model.")
 CHECKS["C15"] = dict(
   engine="enum", category="model_checking", design="5/C15",
@@ -104,7 +104,7 @@ CHECKS["C14"] = dict(
 CHECKS["C05"] = dict(
   engine="parksched", category="model_checking", design="5/C05",
   technique="crash-point enumeration of two writers to produce every kind of leftover lock, then an exhaustive grid over the real snapshot API (timestamps x access paths x bounds x batch sizes x key-only x warm/cold x SetSnapshotTS x split before each RPC) compared with the MVCC truth of the resolved final state; plus reads under enumerated store faults (one deviation at any read RPC, both batch-get paths, one preemption) and a reader explored as an actor against a dead async-commit writer",
-  text="MVCC histories come from crashing two writers at every combination of <= 2 store RPCs over committed base data (pending, committed-primary-unresolved-secondaries, rolled back, pessimistic, async-commit / 1PC locks, locks of later transactions); on each distinct history every snapshot timestamp between its events is read through point get, batch get of every subset, forward and reverse scans over every bound pair with batch sizes 2 and 3 and key-only, repeated on the warm snapshot, after SetSnapshotTS to every other timestamp and back, and with a region split before each of the first RPCs; every answer equals the MVCC truth.",
+  text="MVCC histories come from crashing two writers at every combination of <= 2 store RPCs over committed base data (pending, committed-primary-unresolved-secondaries, rolled back, pessimistic, async-commit / 1PC locks, locks of later transactions); on each distinct history every snapshot timestamp between its events is read through point get, batch get of every subset (each also on a cold snapshot of its own) and of 5134 keys (beyond the per-region batch limit, cut before / between / after the real keys), forward and reverse scans over every bound pair with batch sizes 2 and 3 and key-only, repeated on the warm snapshot, after SetSnapshotTS to every other timestamp and back, and with a region split before each of the first RPCs; every answer equals the MVCC truth.",
   note=TXN_NOTE + " Unbounded reverse scans are the recorded known finding keyed under C01; on unistore reverse / unbounded scans are left out (store-side artefacts).")
 
 CHECKS["C16"] = dict(
